@@ -1,4 +1,61 @@
-(* Corr/C01.v — case runner for C01 (wire encoding of records and messages). *)
-From Dns Require Import Base.Bytes Corr.Wire.
+(* Corr/C01.v — case runner for C01 (wire encoding of records and messages), plus
+   the struct-level unpack cases of Model/OptValUnpack.v: option code / SVCB key
+   and value octets -> error class or the decoded VALUE, printed in the encoding
+   the optval / svcbval cases of Corr/C08.v read. *)
+From Dns Require Import Base.Bytes Corr.Wire Model.OptValUnpack.
+Open Scope N_scope.
+
+Definition c1 (k : string) (l : list string) : string := (k +++ ":" +++ join ":" l)%string.
+Definition show_xlist (l : list bytes) : string := join "," (map (fun e => ("x" +++ hex e)%string) l).
+
+Definition show_optval (v : optval) : string :=
+  match v with
+  | O_LLQ a b c d e => c1 "LLQ" [dec a; dec b; dec c; dec d; dec e]
+  | O_UL l k => c1 "UL" [dec l; dec k]
+  | O_NSID t => c1 "NSID" [hex t]
+  | O_ESU t => c1 "ESU" [hex t]
+  | O_DAU t => c1 "DAU" [hex t]
+  | O_DHU t => c1 "DHU" [hex t]
+  | O_N3U t => c1 "N3U" [hex t]
+  | O_SUBNET f m s a => c1 "SUBNET" [dec f; dec m; dec s; hex a]
+  | O_EXPIRE e empty => c1 "EXPIRE" [dec e; if empty then "1" else "0"]%string
+  | O_COOKIE t => c1 "COOKIE" [hex t]
+  | O_KEEPALIVE t => c1 "KEEPALIVE" [dec t]
+  | O_PADDING t => c1 "PADDING" [hex t]
+  | O_EDE c t => c1 "EDE" [dec c; hex t]
+  | O_REPORTING a => c1 "REPORTING" [hex a]
+  | O_ZONEVERSION l t x => c1 "ZONEVERSION" [dec l; dec t; hex x]
+  | O_LOCAL c d => c1 "LOCAL" [dec c; hex d]
+  end.
+
+Definition show_svcbval (v : svcbval) : string :=
+  match v with
+  | S_MANDATORY cs => c1 "MANDATORY" [show_ns cs]
+  | S_ALPN ids => c1 "ALPN" [show_xlist ids]
+  | S_NODEFAULTALPN => "NODEFAULTALPN"%string
+  | S_PORT p => c1 "PORT" [dec p]
+  | S_IPV4HINT h => c1 "IPV4HINT" [show_xlist h]
+  | S_ECH d => c1 "ECH" [hex d]
+  | S_IPV6HINT h => c1 "IPV6HINT" [show_xlist h]
+  | S_DOHPATH d => c1 "DOHPATH" [hex d]
+  | S_OHTTP => "OHTTP"%string
+  | S_LOCAL k d => c1 "SLOCAL" [dec k; hex d]
+  end.
+
+(* value; then what pack() of the decoded value returns (the model of the
+   repacking the harness does with the real methods) *)
+Definition c_optunpack (code data : string) : string :=
+  match opt_unpack (undec code) (unhex data) with
+  | Ok v => ("ok:" +++ show_optval v +++ ";" +++ show_res hex (opt_pack v))%string
+  | r => show_res (fun _ => EmptyString) r
+  end.
+Definition c_svcbunpack (key data : string) : string :=
+  match svcb_unpack (undec key) (unhex data) with
+  | Ok v => ("ok:" +++ show_svcbval v +++ ";" +++ show_res hex (svcb_pack v))%string
+  | r => show_res (fun _ => EmptyString) r
+  end.
+
 Definition run (fn : string) (args : list string) : string :=
-  match run_wire fn args with Some s => s | None => "unknown-fn"%string end.
+  if String.eqb fn "optunpack" then c_optunpack (arg args 0) (arg args 1)
+  else if String.eqb fn "svcbunpack" then c_svcbunpack (arg args 0) (arg args 1)
+  else match run_wire fn args with Some s => s | None => "unknown-fn"%string end.
